@@ -36,7 +36,7 @@ REQUIRED = ["primitives.%s.__eq__" % p for p in _P] + ["primitives.%s.__ne__" % 
 
 
 def plan(tier):
-    return 6000 if tier == "quick" else 150000
+    return 12000 if tier == "quick" else 150000
 
 
 def budget(tier):
